@@ -41,7 +41,7 @@ CFG = {
     "C07": ({"plain": 20000, "asan": 2000, "tsan": 600},  {"plain": 800000, "asan": 60000, "tsan": 20000}),
     "C08": ({"plain": 100000, "asan": 10000, "tsan": 3000}, {"plain": 4000000, "asan": 300000, "tsan": 100000}),
     "C09": ({"plain": 300000, "asan": 30000},             {"plain": 10000000, "asan": 1000000}),
-    "C10": ({"plain": 200000, "asan": 20000},             {"plain": 8000000, "asan": 600000}),
+    "C10": ({"plain": 150000, "asan": 15000},             {"plain": 8000000, "asan": 600000}),
     "C11": ({"plain": 400000, "asan": 40000},             {"plain": 15000000, "asan": 1200000}),
     # "+isolate": every run in a process of its own, so that nothing of the library has run before the concurrent phase
     # (first-use races on process-wide state such as function-local statics)
